@@ -230,7 +230,7 @@ def _run_dens(case):
         else:
             worst_ex = max(worst_ex, abs(math.exp(lp) - pr) / pr / max(1.0, abs(lp)))
     flags["zero_outside_support"] = ok_out
-    if spec["t"] in ("U", "BG"):
+    if spec["t"] in ("U", "BG", "G"):      # (G: F82)
         nan = float("nan")
         flags["nan_outside_support"] = bool(p.prob(nan) == 0 and p.lnprob(nan) == -np.inf and p.lnprob(np.float64("nan")) == -np.inf)
     flags["finite_inside_support"] = ok_in
@@ -568,6 +568,24 @@ def _run_laws(case):
         arr = p * np.array([3.0, 2.0])
         flags[nm + ".mul_array_elementwise"] = bool(isinstance(arr, np.ndarray) and arr.shape == (2,) and
                                                     arr[0].guess == p.guess * 3.0 and arr[1].guess == p.guess * 2.0)
+        # powers and the NumPy spellings of the operators follow the same operand rules (F74, F76)
+        flags[nm + ".pow_str_raises"] = _raises(TypeError, lambda: p ** "a")
+        flags[nm + ".pow_none_raises"] = _raises(TypeError, lambda: p ** None)
+        flags[nm + ".rpow_str_raises"] = _raises(TypeError, lambda: "a" ** p)
+        flags[nm + ".np_add_str_raises"] = _raises(TypeError, lambda: np.add(p, "a"))
+        flags[nm + ".np_add_none_raises"] = _raises(TypeError, lambda: np.add(p, None))
+        flags[nm + ".np_multiply_none_raises"] = _raises(TypeError, lambda: np.multiply(p, None))
+        flags[nm + ".array_with_zero_times_prior_raises"] = _raises(TypeError, lambda: np.array([0, 1]) * p)
+        arr = np.array([3.0, 2.0]) * p
+        flags[nm + ".array_mul_elementwise"] = bool(isinstance(arr, np.ndarray) and arr.shape == (2,) and arr[0].guess == p.guess * 3.0 and arr[1].guess == p.guess * 2.0)
+        # extended-precision NumPy scalars on the left (F75)
+        flags[nm + ".longdouble1_mul"] = _no_raise(lambda: (np.longdouble(1) * p) is p)
+        flags[nm + ".longdouble0_add"] = _no_raise(lambda: (np.longdouble(0) + p) is p)
+        if nm != "C":
+            flags[nm + ".longdouble2_mul_guess"] = _no_raise(lambda: float((np.longdouble(2) * p).guess) == 2 * p.guess)
+            # unsigned NumPy integers are numbers like any other (F77); dividing by a NumPy zero is dividing by zero (F81)
+            flags[nm + ".sub_uint8"] = _no_raise(lambda: (p - np.uint8(1)).guess == p.guess - 1 and (p - np.uint64(3)).guess == p.guess - 3)
+        flags[nm + ".div_np_zero_raises"] = _raises((ZeroDivisionError, TypeError), lambda: p / np.float64(0)) and _raises((ZeroDivisionError, TypeError), lambda: p / np.int64(0))
         q = p.renamed("zz")
         flags[nm + ".renamed"] = bool(q.name == "zz" and q is not p and p.name != "zz" and type(q) is type(p))
     p = Uniform(1.0, 2.0)
@@ -576,6 +594,13 @@ def _run_laws(case):
     flags["base_prior_not_instantiable"] = _raises(NotImplementedError, lambda: __import__("holopy").core.prior.Prior())
     flags["transformed_needs_callable"] = _raises(TypeError, lambda: TransformedPrior(3, [p]))
     return {"resid": {}, "flags": {k: bool(v) for k, v in flags.items()}}
+
+
+def _no_raise(f):
+    try:
+        return bool(f())
+    except Exception:
+        return False
 
 
 def _run_bad(case):
@@ -604,6 +629,24 @@ def _run_bad(case):
     flags["gaussian_mu_nan"] = _raises(E, lambda: Gaussian(nan, w))
     flags["gaussian_mu_inf"] = _raises(E, lambda: Gaussian(inf, w))
     flags["bg_sd_nan"] = _raises(E, lambda: BoundedGaussian(a, nan, a - 1, a + 1))
+    flags["bg_nan_bounds"] = bool(_raises(E, lambda: BoundedGaussian(a, w, nan, nan)) and _raises(E, lambda: BoundedGaussian(a, w, nan, a + w))
+                                  and _raises(E, lambda: BoundedGaussian(a, w, a - w, nan)))           # (F73)
+    flags["uniform_nan_guess"] = _raises(E, lambda: Uniform(a, a + w, guess=nan))                          # (F80)
+    # the default guess lies in the support whatever the magnitude of finite bounds (F79)
+    big = Uniform(1e308, 1.7e308); neg = Uniform(-1.7e308, -1e308)
+    flags["default_guess_in_support_at_huge_bounds"] = bool(1e308 <= big.guess <= 1.7e308 and -1.7e308 <= neg.guess <= -1e308)
+    # the log-density is the logarithm of the density for plain Python numbers at any distance and width (F78)
+    def _ln_ok(mu, sd, x):
+        g = Gaussian(mu, sd)
+        try:
+            lp = float(g.lnprob(x))
+        except Exception:
+            return False
+        z = (x - mu) / sd
+        ref = -0.5 * z * z - math.log(sd) - 0.5 * math.log(2 * math.pi) if abs(z) < 1e150 else -inf
+        return (lp == ref) if math.isinf(ref) else abs(lp - ref) <= 1e-12 * max(1.0, abs(ref))
+    flags["gaussian_lnprob_never_raises"] = bool(_ln_ok(0., 1., 1e160) and _ln_ok(0., 1e-170, 0.) and _ln_ok(0., 1e160, 0.) and _ln_ok(1e200, 1., 0)
+                                                 and _ln_ok(a, w, a + 3 * w) and _ln_ok(0., 1e-170, 1e-170))
     # valid edge constructions are accepted
     ok = True
     try:
